@@ -426,6 +426,20 @@ ZADD = "(add_model(self.datetime.time, %s).0 || DN_MIN() * DAYNS() <= dn(self.da
 # operator forms on DateTime<Tz> (generic): documented to panic when the result is not representable = the precondition
 c('DateTime::Add__add', U, requires="dtwf(self.datetime), td_inv(rhs), " + ZADD % ("td_ns(rhs)", "td_ns(rhs)"), ensures="dt_add_post(self.datetime, td_ns(rhs), Some(r.datetime))")
 c('DateTime::Sub__sub', U, requires="dtwf(self.datetime), td_inv(rhs), " + ZADD % ("-td_ns(rhs)", "-td_ns(rhs)"), ensures="dt_add_post(self.datetime, -td_ns(rhs), Some(r.datetime))")
+# std Duration forms: converted with TimeDelta::from_std (documented to panic when the Duration exceeds TimeDelta: precondition), then as above
+DUR_NS = "(dur_secs(rhs) as int * 1_000_000_000 + dur_nanos(rhs) as int)"
+def _dur(pre, sign, body):
+    d = ('' if sign == '+' else '-') + DUR_NS
+    return dict(requires=("%s, %s <= LIM(), " % (pre, DUR_NS)) + body.replace('@D', d))
+NDT_REP = "(add_model(self.time, @D).0 || DN_MIN() * DAYNS() <= dn(self.date) * DAYNS() + add_model(self.time, @D).1 < (DN_MAX() + 1) * DAYNS())"
+c('NaiveDateTime::Add_Duration__add', U, ensures="dt_add_post(self, %s, Some(r))" % DUR_NS, **_dur("dtwf(self)", '+', NDT_REP))
+c('NaiveDateTime::Sub_Duration__sub', U, ensures="dt_add_post(self, -%s, Some(r))" % DUR_NS, **_dur("dtwf(self)", '-', NDT_REP))
+ZDT_REP = NDT_REP.replace('self.time', 'self.datetime.time').replace('self.date)', 'self.datetime.date)')
+c('DateTime::Add_Duration__add', U, ensures="dt_add_post(self.datetime, %s, Some(r.datetime))" % DUR_NS, **_dur("dtwf(self.datetime)", '+', ZDT_REP))
+c('DateTime::Sub_Duration__sub', U, ensures="dt_add_post(self.datetime, -%s, Some(r.datetime))" % DUR_NS, **_dur("dtwf(self.datetime)", '-', ZDT_REP))
+ODT_REP = ZDT_REP.replace('self.', 'old(self).')
+c('DateTime::AddAssign_Duration__add_assign', U, ensures="dt_add_post(old(self).datetime, %s, Some(final(self).datetime))" % DUR_NS, **_dur("dtwf(old(self).datetime)", '+', ODT_REP))
+c('DateTime::SubAssign_Duration__sub_assign', U, ensures="dt_add_post(old(self).datetime, -%s, Some(final(self).datetime))" % DUR_NS, **_dur("dtwf(old(self).datetime)", '-', ODT_REP))
 SDS = "td_inv(r), td_ns(r) == (dn(self.datetime.date) - dn(rhs.datetime.date)) * DAYNS() + jpos(self.datetime.time, rhs.datetime.time) - jpos(rhs.datetime.time, self.datetime.time)"
 c('DateTime::signed_duration_since', U, requires="dtwf(self.datetime), dtwf(rhs.datetime)", ensures=SDS)      # same instants whatever the two zones
 c('DateTime::Sub_DateTime__sub', U, requires="dtwf(self.datetime), dtwf(rhs.datetime)", ensures=SDS)
@@ -449,6 +463,8 @@ U = 'verus:time'
 DURNS = "((dur_secs(rhs) as int % 172800) * 1_000_000_000 + dur_nanos(rhs) as int)"
 c('NaiveTime::Add_Duration__add', U, requires="twf(self)", ensures="twf(r), (r.secs as int, r.frac as int) == add_time(self, %s)" % DURNS)
 c('NaiveTime::Sub_Duration__sub', U, requires="twf(self)", ensures="twf(r), (r.secs as int, r.frac as int) == add_time(self, -%s)" % DURNS)
+c('NaiveTime::AddAssign_Duration__add_assign', U, requires="twf(*old(self))", ensures="twf(*final(self)), (final(self).secs as int, final(self).frac as int) == add_time(*old(self), %s)" % DURNS)
+c('NaiveTime::SubAssign_Duration__sub_assign', U, requires="twf(*old(self))", ensures="twf(*final(self)), (final(self).secs as int, final(self).frac as int) == add_time(*old(self), -%s)" % DURNS)
 c('NaiveTime::Add_FixedOffset__add', U, requires="twf(self), offwf(rhs)", ensures="twf(r), r.frac == self.frac, r.secs as int == (self.secs as int + rhs.local_minus_utc as int) % 86400")
 c('NaiveTime::Sub_FixedOffset__sub', U, requires="twf(self), offwf(rhs)", ensures="twf(r), r.frac == self.frac, r.secs as int == (self.secs as int - rhs.local_minus_utc as int) % 86400")
 c('TimeZoneRef::unix_leap_time_to_unix_time', 'verus:tz', ensures="true")   # safety only: no overflow, no out-of-bounds index
